@@ -18,6 +18,11 @@
 //!        a multiset with members / declarations sorted by name, every number by exact value
 //!        (`u64`: same decimal text; `f64`: the text parses to the same bit pattern).
 //!
+//! Every case is formatted twice: by a fresh formatter and by a long-lived formatter instance of the same
+//! configuration (cases come in runs of one configuration); both outputs face the same oracles and the same model
+//! prediction; a failure that needs earlier entries is reported as `<key>:after-history` with the case text
+//! `<earlier case> ;; <case>`. Boundary streams add large entries (many dimension sets / items / dimensions / bytes).
+//!
 //! Whether a formatter validates depends on how it was built and on the build profile
 //! (`EmfCfg::validates()`); the check runs this binary in the dev and in the release profile.
 
@@ -35,23 +40,41 @@ use verif_harness::*;
 struct Case {
     cfg: EmfCfg,
     entry: GenEntry,
+    /// entries the SAME formatter instance formatted before this one (oldest first); empty = fresh formatter
+    history: Vec<GenEntry>,
 }
 
 impl Case {
+    fn new(cfg: EmfCfg, entry: GenEntry) -> Case {
+        Case { cfg, entry, history: vec![] }
+    }
+    /// `<cfg> | <entry>`; with a history `<cfg> | <earlier entry> ;; … ;; <cfg> | <entry>`
     fn encode(&self) -> String {
-        format!("{} | {}", self.cfg.encode(), self.entry.encode())
+        let c = self.cfg.encode();
+        let mut parts: Vec<String> = self.history.iter().map(|h| format!("{c} | {}", h.encode())).collect();
+        parts.push(format!("{c} | {}", self.entry.encode()));
+        parts.join(" ;; ")
     }
     fn decode(s: &str) -> Option<Case> {
-        let (c, e) = s.split_once(" | ")?;
-        let cfg = EmfCfg::decode(c.trim())?;
-        if cfg.namespaces.is_empty() || cfg.default_dims.is_empty() {
-            return None;
+        let mut cfg = None;
+        let mut entries = vec![];
+        for part in s.split(" ;; ") {
+            let (c, e) = part.split_once(" | ")?;
+            let c = EmfCfg::decode(c.trim())?;
+            if c.namespaces.is_empty() || c.default_dims.is_empty() {
+                return None;
+            }
+            c.build_fmt()?;
+            // one formatter instance: the configuration of the last part counts
+            cfg = Some(c);
+            entries.push(GenEntry::decode(e)?);
         }
-        cfg.build_fmt()?;
-        Some(Case { cfg, entry: GenEntry::decode(e)? })
+        let entry = entries.pop()?;
+        Some(Case { cfg: cfg?, entry, history: entries })
     }
+    /// the model is a function of the configuration and the entry alone
     fn request(&self) -> String {
-        format!("{} {}", self.cfg.validates() as u8, self.encode())
+        format!("{} {} | {}", self.cfg.validates() as u8, self.cfg.encode(), self.entry.encode())
     }
 }
 
@@ -446,11 +469,8 @@ fn classify_error(msg: &str, entry: &GenEntry) -> String {
     format!("unknown:{}", hex(msg.as_bytes()))
 }
 
-fn run_with(cfg: &EmfCfg, entry: &GenEntry) -> (Outcome, Vec<u8>) {
-    let mut out = Vec::new();
-    let Some(mut f) = cfg.build_fmt() else { return (Outcome::Panic("unsupported multiplicity".into()), out) };
-    let r = catch(|| f.format(entry, &mut out));
-    let o = match r {
+fn outcome_of(r: Result<Result<(), IoStreamError>, String>, entry: &GenEntry) -> Outcome {
+    match r {
         Ok(Ok(())) => Outcome::Ok,
         Ok(Err(IoStreamError::Validation(e))) => {
             let mut kinds: Vec<String> =
@@ -460,8 +480,27 @@ fn run_with(cfg: &EmfCfg, entry: &GenEntry) -> (Outcome, Vec<u8>) {
         }
         Ok(Err(IoStreamError::Io(e))) => Outcome::Io(format!("{:?}", e.kind())),
         Err(p) => Outcome::Panic(p),
-    };
-    (o, out)
+    }
+}
+
+/// formats `entry` with an existing formatter instance
+fn run_on(f: &mut BuiltFmt, entry: &GenEntry) -> (Outcome, Vec<u8>) {
+    let mut out = Vec::new();
+    let r = catch(|| f.format(entry, &mut out));
+    (outcome_of(r, entry), out)
+}
+
+/// fresh formatter, the history first (its output is dropped), then the entry
+fn run_with_history(cfg: &EmfCfg, history: &[GenEntry], entry: &GenEntry) -> (Outcome, Vec<u8>) {
+    let Some(mut f) = cfg.build_fmt() else { return (Outcome::Panic("unsupported multiplicity".into()), vec![]) };
+    for h in history {
+        let _ = run_on(&mut f, h);
+    }
+    run_on(&mut f, entry)
+}
+
+fn run_with(cfg: &EmfCfg, entry: &GenEntry) -> (Outcome, Vec<u8>) {
+    run_with_history(cfg, &[], entry)
 }
 
 fn lines_of(bytes: &[u8]) -> Vec<Vec<u8>> {
@@ -477,7 +516,11 @@ struct ImplRun {
 }
 
 fn run_impl(c: &Case) -> ImplRun {
-    let (outcome, bytes) = run_with(&c.cfg, &c.entry);
+    let (outcome, bytes) = run_with_history(&c.cfg, &c.history, &c.entry);
+    parse_run(outcome, bytes)
+}
+
+fn parse_run(outcome: Outcome, bytes: Vec<u8>) -> ImplRun {
     let mut trees = Ok(vec![]);
     for l in lines_of(&bytes) {
         let r = (|| {
@@ -1654,11 +1697,65 @@ fn inject(rng: &mut Rng, cfg: &EmfCfg, e: &mut GenEntry, kind: u64) -> &'static 
 
 const N_INJECT: u64 = 14;
 
-fn gen_case(rng: &mut Rng, property: &str, rep: &mut Report) -> Case {
+/// Cases come in runs of one formatter configuration (so that the long-lived instance of that
+/// configuration sees rejected, split, entry-dimension and plain entries one after another).
+#[derive(Default)]
+struct RunState {
+    cfg: Option<EmfCfg>,
+    left: usize,
+    /// the previous entry of the run before any defect was injected
+    prev: Option<GenEntry>,
+}
+
+/// a variant of the previous (valid) entry: the same names, entry dimensions regrouped / added / dropped
+fn vary_entry(rng: &mut Rng, cfg: &EmfCfg, prev: &GenEntry) -> GenEntry {
+    let mut e = prev.clone();
+    let pos = e.items.iter().position(|it| matches!(it, GItem::EntryDims(..)));
+    match pos {
+        Some(i) => {
+            let flat: Vec<String> = match &e.items[i] {
+                GItem::EntryDims(sets, _) => sets.iter().flatten().cloned().collect(),
+                _ => vec![],
+            };
+            let sets: Vec<Vec<String>> = match rng.below(5) {
+                0 => vec![flat.clone()],
+                1 if !flat.is_empty() => flat.iter().map(|d| vec![d.clone()]).collect(),
+                2 => vec![flat.clone(), vec![]],
+                3 => vec![vec![], flat.clone()],
+                _ => {
+                    let cut = rng.range(0, flat.len() as u64) as usize;
+                    vec![flat[..cut].to_vec(), flat[cut..].to_vec()]
+                }
+            };
+            e.items[i] = GItem::entry_dims(sets);
+        }
+        None => {
+            // the identity entry-dimension config (one empty set) before anything else
+            let _ = cfg;
+            e.items.insert(0, GItem::entry_dims(vec![vec![]]));
+        }
+    }
+    e
+}
+
+fn gen_case(rng: &mut Rng, property: &str, rep: &mut Report, run: &mut RunState) -> Case {
     let c08 = property == "C08";
-    let cfg = gen_cfg(rng, c08);
+    if run.left == 0 || run.cfg.is_none() {
+        run.cfg = Some(gen_cfg(rng, c08));
+        run.left = *rng.pick(&[1usize, 1, 2, 3, 4, 6, 8]);
+        run.prev = None;
+    }
+    run.left -= 1;
+    let cfg = run.cfg.clone().unwrap();
     let nasty = rng.chance(1, 5);
-    let mut entry = gen_valid_entry(rng, &cfg, nasty);
+    let mut entry = match &run.prev {
+        Some(p) if rng.chance(1, 4) => {
+            rep.bump("run:variant-of-previous");
+            if rng.chance(1, 3) { p.clone() } else { vary_entry(rng, &cfg, p) }
+        }
+        _ => gen_valid_entry(rng, &cfg, nasty),
+    };
+    run.prev = Some(entry.clone());
     let roll = rng.below(100);
     let n_defects = if c08 {
         if roll < 35 { 0 } else if roll < 80 { 1 } else { 2 }
@@ -1675,7 +1772,7 @@ fn gen_case(rng: &mut Rng, property: &str, rep: &mut Report) -> Case {
     if n_defects == 0 {
         rep.bump("injected:none");
     }
-    Case { cfg, entry }
+    Case::new(cfg, entry)
 }
 
 // ------------------------------------------------------------------------------------------------
@@ -1805,7 +1902,7 @@ fn stream_sets(rng: &mut Rng, k: usize, pos: Pos, d: u64) -> (Case, String) {
             "dup-global-after-sets"
         }
     };
-    (Case { cfg, entry: GenEntry { items, sample_group: vec![] } }, format!("sets:{label}"))
+    (Case::new(cfg, GenEntry { items, sample_group: vec![] }), format!("sets:{label}"))
 }
 
 /// `n` values in one entry; defect at value index `j`
@@ -1843,7 +1940,7 @@ fn stream_items(rng: &mut Rng, n: usize, pos: Pos, d: u64) -> (Case, String) {
             "reserved-name"
         }
     };
-    (Case { cfg, entry: GenEntry { items, sample_group: vec![] } }, format!("items:{label}"))
+    (Case::new(cfg, GenEntry { items, sample_group: vec![] }), format!("items:{label}"))
 }
 
 /// per-metric dimension lists of length `n`
@@ -1893,7 +1990,7 @@ fn stream_dims(rng: &mut Rng, n: usize, pos: Pos, d: u64) -> (Case, String) {
             "prefix-set-then-dup"
         }
     };
-    (Case { cfg, entry: GenEntry { items, sample_group: vec![] } }, format!("dims:{label}"))
+    (Case::new(cfg, GenEntry { items, sample_group: vec![] }), format!("dims:{label}"))
 }
 
 /// names of `len` bytes that share all but one byte
@@ -1940,7 +2037,7 @@ fn stream_namelen(rng: &mut Rng, len: usize, pos: Pos, d: u64) -> (Case, String)
             "metric-under-long-dimension"
         }
     };
-    (Case { cfg, entry: GenEntry { items, sample_group: vec![] } }, format!("namelen:{label}"))
+    (Case::new(cfg, GenEntry { items, sample_group: vec![] }), format!("namelen:{label}"))
 }
 
 /// `n` declared dimensions (default sets and entry sets); defect at dimension `j`
@@ -1988,7 +2085,7 @@ fn stream_declared(rng: &mut Rng, n: usize, pos: Pos, d: u64) -> (Case, String) 
             "dup-dimension-string"
         }
     };
-    (Case { cfg, entry: GenEntry { items, sample_group: vec![] } }, format!("declared:{label}"))
+    (Case::new(cfg, GenEntry { items, sample_group: vec![] }), format!("declared:{label}"))
 }
 
 /// `n` namespaces (directive replication), with a split record, an extra directive and a log group
@@ -2020,7 +2117,7 @@ fn stream_namespaces(rng: &mut Rng, n: usize, _pos: Pos, d: u64) -> (Case, Strin
             "string-vs-metric-name"
         }
     };
-    (Case { cfg, entry: GenEntry { items, sample_group: vec![] } }, format!("namespaces:{label}"))
+    (Case::new(cfg, GenEntry { items, sample_group: vec![] }), format!("namespaces:{label}"))
 }
 
 /// the boundary cases of a run: (case, stream label, size)
@@ -2072,6 +2169,61 @@ struct Evaluated {
     enc: String,
     request: String,
     canon: ImplCanon,
+    /// when the long-lived instance produced something else than the fresh formatter:
+    /// (the case with its history, what the instance produced)
+    hist: Option<(String, ImplCanon)>,
+}
+
+/// One long-lived real formatter per configuration. An instance is replaced after
+/// `INSTANCE_LIFETIME` entries so that its whole history is known (and replayable).
+const INSTANCE_LIFETIME: usize = 16;
+const MAX_INSTANCES: usize = 256;
+
+struct Instance {
+    fmt: BuiltFmt,
+    history: Vec<GenEntry>,
+}
+
+#[derive(Default)]
+struct Instances {
+    map: std::collections::HashMap<String, Instance>,
+}
+
+fn same_output(a: (&Outcome, &[u8]), b: (&Outcome, &[u8]), clock: bool) -> bool {
+    if a.0 != b.0 {
+        return false;
+    }
+    if clock { sorted_lines(&mask_timestamp(a.1)) == sorted_lines(&mask_timestamp(b.1)) } else { sorted_lines(a.1) == sorted_lines(b.1) }
+}
+
+/// Formats the case's entry a second time, through the long-lived instance of its configuration.
+/// Returns the case with the instance's history and the run when it differs from the fresh run.
+fn run_long_lived(c: &Case, fresh: &ImplRun, insts: &mut Instances, rep: &mut Report) -> Option<(Case, ImplRun)> {
+    if !c.history.is_empty() {
+        return None; // a replayed history case: `run_impl` already went through the history
+    }
+    let key = c.cfg.encode();
+    if !insts.map.contains_key(&key) {
+        if insts.map.len() >= MAX_INSTANCES {
+            insts.map.clear();
+        }
+        insts.map.insert(key.clone(), Instance { fmt: c.cfg.build_fmt()?, history: vec![] });
+    }
+    let inst = insts.map.get_mut(&key)?;
+    let (o, b) = run_on(&mut inst.fmt, &c.entry);
+    rep.bump(&format!("long-lived:history-length:{}", match inst.history.len() { 0 => "0", 1 => "1", 2..=4 => "2-4", _ => "5+" }));
+    let clock = !c.entry.items.iter().any(|it| matches!(it, GItem::Timestamp(_)));
+    let res = if same_output((&fresh.outcome, &fresh.bytes), (&o, &b), clock) {
+        None
+    } else {
+        rep.bump("long-lived:differs-from-fresh");
+        Some((Case { history: inst.history.clone(), ..c.clone() }, parse_run(o, b)))
+    };
+    inst.history.push(c.entry.clone());
+    if inst.history.len() >= INSTANCE_LIFETIME {
+        insts.map.remove(&key);
+    }
+    res
 }
 
 fn oracle_failure_key(c: &Case, property: &str) -> Option<(String, String, String)> {
@@ -2088,10 +2240,21 @@ fn oracle_failure_key(c: &Case, property: &str) -> Option<(String, String, Strin
 
 fn shrink_case(c: &Case, property: &str, key: &str) -> Case {
     let fails = |cc: &Case| oracle_failure_key(cc, property).map(|(k, _, _)| k == key).unwrap_or(false);
-    let items = shrink_list(&c.entry.items, |items| {
-        fails(&Case { cfg: c.cfg.clone(), entry: GenEntry { items: items.to_vec(), sample_group: vec![] } })
+    // the history first: fewer earlier entries, then fewer items in each of them
+    let history = shrink_list(&c.history, |h| fails(&Case { history: h.to_vec(), ..c.clone() }));
+    let mut cur = Case { history, ..c.clone() };
+    for i in 0..cur.history.len() {
+        let items = shrink_list(&cur.history[i].items, |items| {
+            let mut cand = cur.clone();
+            cand.history[i].items = items.to_vec();
+            fails(&cand)
+        });
+        cur.history[i].items = items;
+    }
+    let items = shrink_list(&cur.entry.items, |items| {
+        fails(&Case { entry: GenEntry { items: items.to_vec(), sample_group: vec![] }, ..cur.clone() })
     });
-    let mut cur = Case { cfg: c.cfg.clone(), entry: GenEntry { items, sample_group: vec![] } };
+    cur.entry.items = items;
     // simplify the configuration while the failure persists
     let mut tries: Vec<Box<dyn Fn(&mut EmfCfg)>> = vec![
         Box::new(|c| c.namespaces.truncate(1)),
@@ -2111,7 +2274,7 @@ fn shrink_case(c: &Case, property: &str, key: &str) -> Case {
     }
     // items again: a simpler configuration may have made more of them removable
     let items = shrink_list(&cur.entry.items, |items| {
-        fails(&Case { cfg: cur.cfg.clone(), entry: GenEntry { items: items.to_vec(), sample_group: vec![] } })
+        fails(&Case { entry: GenEntry { items: items.to_vec(), sample_group: vec![] }, ..cur.clone() })
     });
     cur.entry.items = items;
     // simplify values: metrics to a single small observation, strings to "s"
@@ -2134,7 +2297,7 @@ fn shrink_case(c: &Case, property: &str, key: &str) -> Case {
     cur
 }
 
-fn evaluate(c: &Case, property: &str, rep: &mut Report, sample: bool) -> Evaluated {
+fn evaluate(c: &Case, property: &str, rep: &mut Report, sample: bool, insts: &mut Instances) -> Evaluated {
     let enc = c.encode();
     let run = run_impl(c);
     let d = defects(&c.cfg, &c.entry);
@@ -2191,7 +2354,8 @@ fn evaluate(c: &Case, property: &str, rep: &mut Report, sample: bool) -> Evaluat
             // shrink and record the first few of every class only (shrinking re-runs the implementation many times)
             if rep.oracle_failures.iter().filter(|f| f.key == key).count() >= 3 {
                 rep.case(&enc, nontrivial);
-                return Evaluated { request: c.request(), enc, canon: impl_canon(&run) };
+                let _ = run_long_lived(c, &run, insts, rep);
+                return Evaluated { request: c.request(), enc, canon: impl_canon(&run), hist: None };
             }
             let small = shrink_case(c, property, key);
             let r2 = run_impl(&small);
@@ -2220,21 +2384,72 @@ fn evaluate(c: &Case, property: &str, rep: &mut Report, sample: bool) -> Evaluat
     if sample {
         rep.sample(json!({"case": enc, "impl": run.outcome.render(), "output": String::from_utf8_lossy(&run.bytes), "defects": d.iter().collect::<Vec<_>>()}));
     }
-    Evaluated { request: c.request(), enc, canon: impl_canon(&run) }
+    // the same entry through the long-lived instance of this configuration: same oracles, same model prediction
+    let mut hist = None;
+    if let Some((hc, hrun)) = run_long_lived(c, &run, insts, rep) {
+        let fresh_key: Option<String> = if property == "C08" {
+            c08_oracle(c, &run).map(|(k, _)| k.to_string())
+        } else if c03_domain(c).is_none() {
+            c03_oracle(c, &run).map(|_| "emf:content".to_string())
+        } else {
+            None
+        };
+        let hist_fail: Option<(String, String)> = if property == "C08" {
+            c08_oracle(&hc, &hrun).map(|(k, w)| (k.to_string(), w))
+        } else if c03_domain(&hc).is_none() {
+            c03_oracle(&hc, &hrun).map(|w| ("emf:content".to_string(), w))
+        } else {
+            None
+        };
+        if let Some((key, what)) = hist_fail {
+            if fresh_key.as_deref() != Some(key.as_str()) {
+                let full = format!("{key}:after-history");
+                rep.bump(&format!("oracle-failure:{full}"));
+                if rep.oracle_failures.iter().filter(|f| f.key == full).count() < 3 {
+                    let small = shrink_case(&hc, property, &key);
+                    let r2 = run_impl(&small);
+                    let what = oracle_failure_key(&small, property).map(|(_, w, _)| w).unwrap_or(what);
+                    rep.oracle_failure(
+                        &full,
+                        &small.encode(),
+                        &format!("{} {}", r2.outcome.render(), String::from_utf8_lossy(&r2.bytes)),
+                        &format!("only after the same formatter instance formatted the earlier entr{} of the case: {what}", if small.history.len() == 1 { "y" } else { "ies" }),
+                    );
+                }
+            }
+        }
+        hist = Some((hc.encode(), impl_canon(&hrun)));
+    }
+    Evaluated { request: c.request(), enc, canon: impl_canon(&run), hist }
 }
 
 /// one batch: evaluate, ask the model, compare
-fn run_batch(cases: &[Case], property: &str, driver: &Option<String>, rep: &mut Report, sample_every: usize) -> Vec<Case> {
-    let evs: Vec<Evaluated> = cases.iter().enumerate().map(|(i, c)| evaluate(c, property, rep, i % sample_every == 0)).collect();
+fn run_batch(
+    cases: &[Case],
+    property: &str,
+    driver: &Option<String>,
+    rep: &mut Report,
+    sample_every: usize,
+    insts: &mut Instances,
+) -> Vec<Case> {
+    let evs: Vec<Evaluated> = cases.iter().enumerate().map(|(i, c)| evaluate(c, property, rep, i % sample_every == 0, insts)).collect();
     let requests: Vec<String> = evs.iter().map(|e| e.request.clone()).collect();
     let mut disagreeing = vec![];
     match run_driver(driver, "emfspec", &requests) {
         Some(replies) => {
             for ((ev, reply), c) in evs.iter().zip(&replies).zip(cases) {
+                let comp = |canon: &ImplCanon| if reply.starts_with("err") || matches!(canon, ImplCanon::Other(_)) { "emfspec/validate" } else { "emfspec/records" };
                 if let Some(model) = compare(&ev.canon, reply) {
-                    let comp = if reply.starts_with("err") || matches!(ev.canon, ImplCanon::Other(_)) { "emfspec/validate" } else { "emfspec/records" };
-                    rep.disagreement(comp, &ev.enc, &render_impl_canon(&ev.canon), &model);
+                    rep.disagreement(comp(&ev.canon), &ev.enc, &render_impl_canon(&ev.canon), &model);
                     disagreeing.push(c.clone());
+                }
+                if let Some((henc, hcanon)) = &ev.hist {
+                    if let Some(model) = compare(hcanon, reply) {
+                        rep.disagreement(&format!("{}:after-history", comp(hcanon)), henc, &render_impl_canon(hcanon), &model);
+                        if let Some(hc) = Case::decode(henc) {
+                            disagreeing.push(hc);
+                        }
+                    }
                 }
             }
             rep.bump_by("model requests", requests.len() as u64);
@@ -2323,14 +2538,14 @@ fn main() {
         if cases.is_empty() {
             rep.notes.push("replay case did not decode".into());
         }
-        run_batch(&cases, property, &args.driver, &mut rep, 1);
+        run_batch(&cases, property, &args.driver, &mut rep, 1, &mut Instances::default());
         rep.write(&args);
         return;
     }
 
     let corpus: Vec<Case> = args.corpus_cases().iter().filter_map(|l| Case::decode(l)).collect();
     rep.bump_by("corpus cases", corpus.len() as u64);
-    let mut disagreeing = run_batch(&corpus, property, &args.driver, &mut rep, 1);
+    let mut disagreeing = run_batch(&corpus, property, &args.driver, &mut rep, 1, &mut Instances::default());
 
     let (shards, per_shard, batch) = if args.thorough() { (12u64, 40_000usize, 4_000usize) } else { (3u64, 4_000usize, 2_000usize) };
     // boundary streams (large entries): dealt round-robin to the shards
@@ -2351,14 +2566,16 @@ fn main() {
                 s.spawn(move || {
                     let mut rep = Report::new(args, "emfspec", "");
                     let mut dis = vec![];
+                    let mut insts = Instances::default();
+                    let mut runstate = RunState::default();
                     for chunk in mine.chunks(100) {
-                        dis.extend(run_batch(chunk, property, &args.driver, &mut rep, 97));
+                        dis.extend(run_batch(chunk, property, &args.driver, &mut rep, 97, &mut insts));
                     }
                     let mut done = 0;
                     while done < per_shard {
                         let n = batch.min(per_shard - done);
-                        let cases: Vec<Case> = (0..n).map(|_| gen_case(&mut r, property, &mut rep)).collect();
-                        dis.extend(run_batch(&cases, property, &args.driver, &mut rep, 1999));
+                        let cases: Vec<Case> = (0..n).map(|_| gen_case(&mut r, property, &mut rep, &mut runstate)).collect();
+                        dis.extend(run_batch(&cases, property, &args.driver, &mut rep, 1999, &mut insts));
                         done += n;
                     }
                     (rep, dis)
